@@ -13,6 +13,8 @@ MANIFEST_ENTRY = {
     "note": "Each gate is a function contract; that the gates are wired in this order (Share loop, SegmentFetcher, DownloadNode.fetch_failed/_got_segment callbacks) is a property of Deferred/observer plumbing that is not under contract (see C03). SHA-256d collision resistance is assumed. Offset-table sanity checks (_satisfy_offsets) are not under contract.",
     "technique": "contract-based deductive verification (pyvc VCs + z3) with callee contracts for the hash trees and uninterpreted hashes",
 }
+MANIFEST_ENTRY["text"] += " Bounded end-to-end stand-in (run-time contract, never counted as proved): contracts/immutable_grid.py encodes seeded files with the real Encoder, serves the shares from in-memory servers with per-share faults (missing, bit-flipped, truncated, header-truncated, another file's, another encoding's, dead or dying server, slow server) and checks every ImmutableFileNode.read (whole, ranged, concurrent, paused, next to a cancelled one, after failed reads) against the plaintext."
+MANIFEST_ENTRY["technique"] += "; plus bounded end-to-end run-time scenario contracts on an in-process grid of the real components (stand-in, labelled bounded)"
 EXPLANATION = "No data crosses a gate unless the corresponding hash check returned normally."
 TRUSTED = ["SHA-256d collision resistance", "IncompleteHashTree per C35"]
 ASSUMPTIONS = []
